@@ -291,7 +291,8 @@ func c10RunGroup(group []c10Scenario) []c10Result {
 		req.Params.Name = "emit"
 		req.Params.Arguments = map[string]interface{}{"nonce": "warm-" + group[0].ID, "script": group[0].Emitted}
 		if _, err := client.CallTool(ctx, req); err != nil {
-			results[0].Broken = "warm-up call: " + err.Error()
+			// the warm-up call is a call like the judged one: its failure is an observation
+			results[0].Err = "warm-up call: " + err.Error()
 			return results
 		}
 		defer func() { mu.Lock(); replaced = false; mu.Unlock() }()
